@@ -4,6 +4,7 @@
   Model: `Model/GroupSys.lean`.
 -/
 import PintModel.Model.GroupSys
+import PintModel.Gen.DefaultRegistry
 
 namespace Pint.Props.C14
 open Pint Pint.GS
@@ -124,5 +125,23 @@ theorem C14_self_loop_rejected (st : State) (name : String) (units : List String
   split
   · right; rfl
   · left; simp
+
+/-! ### attribute access through a system -/
+
+/-- `ureg.sys.<system>.<item>` is the system's variant of the name whenever the registry resolves `<system>_<item>` … -/
+theorem C14_system_attr_variant (R R' : Registry) (sys item n : String)
+    (h : R.getName (sys ++ "_" ++ item) = .ok (n, R')) : GS.systemAttr R sys item = .ok n := by
+  unfold GS.systemAttr; rw [h]
+
+/-- … and the plain unit otherwise -/
+theorem C14_system_attr_plain (R : Registry) (sys item : String) (e : Err)
+    (h : R.getName (sys ++ "_" ++ item) = .error e) :
+    GS.systemAttr R sys item = (match R.getName item with | .ok (n, _) => .ok n | .error e => .error e) := by
+  unfold GS.systemAttr; rw [h]; rfl
+
+example : (GS.systemAttr Gen.defaultRegistry "imperial" "pint").toOption = some "imperial_pint"
+    ∧ (GS.systemAttr Gen.defaultRegistry "imperial" "floz").toOption = some "imperial_fluid_ounce"
+    ∧ (GS.systemAttr Gen.defaultRegistry "US" "meter").toOption = some "meter" := by decide +kernel
+
 
 end Pint.Props.C14
